@@ -10,7 +10,10 @@ FV=$(mktemp -d /tmp/gvc-frozen-verif-XXXXXX)
 cp bin/gvc "$BIN"; chmod 755 "$BIN"
 cp -r trusted known_findings.txt stretch.txt expected_obligations.json solver_hints.json prop_notes.json MANIFEST.json properties.jsonl "$FV"/ 2>/dev/null
 git -C /repo worktree add -q --detach "$WT" HEAD || exit 2
-for p in $(python3 -c "import json;print(' '.join(c['property_id'] for c in json.load(open('MANIFEST.json'))['checks']))"); do
+# optional arguments: the properties to refresh (default: every claimed property)
+PROPS="$*"
+[ -n "$PROPS" ] || PROPS=$(python3 -c "import json;print(' '.join(c['property_id'] for c in json.load(open('MANIFEST.json'))['checks']))")
+for p in $PROPS; do
   "$BIN" check -repo "$WT" -verif "$FV" -update-expected -no-evidence "$p" | grep -v '^  \|^KNOWN' | tail -3
 done
 cp "$FV"/expected_obligations.json "$FV"/solver_hints.json .
